@@ -475,6 +475,32 @@ def assemble(template: str, defines: set | None = None) -> Assembled:
     while i < len(lines):
         line, org = lines[i]
         s = line.strip()
+        if s.startswith('//@types'):
+            # every struct / enum / type item of a file (plain data definitions), derives dropped
+            spec = _parse_kv(s[len('//@types'):])
+            relfile = spec['file']
+            try:
+                fsrc = open(os.path.join(REPO, relfile)).read()
+            except OSError as e:
+                raise LostAnchor(f'{relfile}: {e}')
+            only = set(x for x in spec.get('only', '').split(',') if x)
+            exc = set(x for x in spec.get('except', '').split(',') if x)
+            names = [(k, n) for k, n in rsx.list_items(fsrc) if (not only or n in only) and n not in exc]
+            missing = only - {n for _, n in names}
+            if missing:
+                raise LostAnchor(f'{relfile}: type item(s) not found: {sorted(missing)}')
+            for k, n in names:
+                ispec = {'kind': k, 'file': relfile, 'name': n, 'drop_derive': 'all', 'vis': 'pub'}
+                text, orgs, info = build_item(ispec, {}, [], defines, log)
+                info.flags['mod_path'] = '::'.join(m for m, _ in mod_stack)
+                start_line = len(out_lines) + 1
+                tl = text.split('\n')
+                out_lines.extend(tl); origins.extend(orgs[:len(tl)] + [orgs[-1]] * (len(tl) - len(orgs)))
+                info.out_line, info.out_end_line = start_line, len(out_lines)
+                items.append(info)
+            log.append(f'R1 {relfile}: {len(names)} type definitions extracted (derives dropped): ' + ', '.join(n for _, n in names))
+            i += 1
+            continue
         if s.startswith('//@item'):
             spec_s = s[len('//@item'):]
             i += 1
